@@ -176,6 +176,9 @@ func NewScenario(seed uint64, profile string) *Scenario {
 		p.MaxValidators = 2 + rng.IntN(p.NumValidators)
 		p.MinValidators = 1 + rng.IntN(2)
 		p.EpochInterval = 2 + rng.Int64N(2)
+		if rng.IntN(2) == 0 {
+			p.EntityThreshold, p.NodeThreshold = 0, 0
+		}
 	case "registry":
 		p.ExtraEntities = 3 + rng.IntN(3)
 	case "runtime": // runtime support: longer epochs so that round timeouts fit into an epoch
@@ -335,6 +338,10 @@ func (s *Scenario) buildDoc(rng *rand.Rand) *genesis.Document {
 			esc := uint64(10_000 + 1000*rng.IntN(4))
 			if i > 0 && rng.IntN(3) == 0 {
 				esc = 10_000
+			}
+			// Stakes of a few base units (below one unit of linear voting power) when no thresholds apply.
+			if i >= 2 && p.EntityThreshold == 0 && p.NodeThreshold == 0 && rng.IntN(3) == 0 {
+				esc = uint64(1 + rng.IntN(40))
 			}
 			acct.Escrow.Active.Balance = q(esc)
 			acct.Escrow.Active.TotalShares = q(esc)
